@@ -145,7 +145,19 @@ impl Cfg {
         c
     }
     pub fn reader_config(&self) -> ArchiveReaderConfig {
+        self.reader_config_mode(None)
+    }
+    /// reader configuration, with the fail-safe decryption mode asked for (`Some(authenticated)`) at a place
+    /// of the builder history chosen by a key byte: before the keys, after them, or the opposite mode
+    /// before and the wanted one after (the last call decides)
+    pub fn reader_config_mode(&self, authenticated: Option<bool>) -> ArchiveReaderConfig {
         let mut c = ArchiveReaderConfig::new();
+        let set = |c: &mut ArchiveReaderConfig, a: bool| { if a { c.failsafe_return_only_authenticated_data(); } else { c.failsafe_return_data_even_unauthenticated(); } };
+        let place = if self.layers & L_ENC != 0 && !self.recipients.is_empty() { self.recipients[self.reader][3] % 3 } else { 1 };
+        if let Some(a) = authenticated {
+            if place == 0 { set(&mut c, a); }
+            if place == 2 { set(&mut c, !a); }
+        }
         if self.layers & L_ENC != 0 && !self.recipients.is_empty() {
             // reader-side builder histories (chosen by a key byte, so a case replays identically): the key of
             // the reader alone, or among decoy keys given before / after it in the same or in separate calls
@@ -157,6 +169,9 @@ impl Cfg {
                 2 => { c.add_private_keys(&[StaticSecret::from(key), decoy(2)]); }
                 _ => { c.add_private_keys(&[decoy(3)]); c.add_private_keys(&[]); c.add_private_keys(&[StaticSecret::from(key)]); c.add_private_keys(&[decoy(4)]); }
             }
+        }
+        if let Some(a) = authenticated {
+            if place != 0 { set(&mut c, a); }
         }
         c
     }
@@ -568,12 +583,7 @@ fn repair_inner(bytes: &[u8], cfg: &Cfg, authenticated: bool) -> Result<Repaired
 
 /// repair from any `Read` source (C13: throttled sources)
 pub fn repair_from<R: Read>(src: R, cfg: &Cfg, authenticated: bool) -> Result<Repaired, String> {
-    let mut rc = cfg.reader_config();
-    if authenticated {
-        rc.failsafe_return_only_authenticated_data();
-    } else {
-        rc.failsafe_return_data_even_unauthenticated();
-    }
+    let rc = cfg.reader_config_mode(Some(authenticated));
     let mut fs = ArchiveFailSafeReader::from_config(src, rc).map_err(|e| err_class(&e))?;
     let sink = Sink::default();
     let data = sink.data.clone();
